@@ -46,7 +46,9 @@ def cases(draw, pools=False):
     if pools and draw(st.integers(0, 19)) == 0:
         kinds = ["pool-map", "pool-imap", "pool-imap_unordered"]
     return {"part": "sched", **m, "opts": o, "chunksize": chunksize, "map": draw(st.sampled_from(kinds)),
-            "perm_seed": draw(st.integers(0, 2**16)), "workers": draw(st.integers(2, 4))}
+            "perm_seed": draw(st.integers(0, 2**16)), "workers": draw(st.integers(2, 4)),
+            # history: the Cooler object predates a re-creation of the collection (same bins, more pixels)
+            "stale_object": draw(st.integers(0, 3)) == 0}
 
 
 class RecordingMap:
@@ -106,10 +108,21 @@ def check_sched(case, ctx: Ctx):
     n, offsets = case["n"], case["offsets"]
     A = model.dense(case["rows"], n, True, 0)
     nnz = len(case["rows"])
-    path = c10.make_cooler(ctx, case)
     pool = None
-    try:
+    if case.get("stale_object") and nnz >= 2:
+        from ..coolio import create_from_model
+
+        path = c10.make_cooler(ctx, dict(case, rows=case["rows"][: nnz // 2]))
         clr = cooler.Cooler(path)
+        _ = clr.matrix(balance=False, sparse=True)[:]
+        _ = len(clr.pixels())
+        edges_ = [[10 * k for k in range(s_ + 1)] for s_ in case["sizes"]]
+        bt_ = {"names": [f"chr{t + 1}" for t in range(len(edges_))], "edges": edges_, "kinds": ["fixed"] * len(edges_)}
+        call("re-create with the full matrix", create_from_model, path, bt_, case["rows"], True, h5opts={"compression": None}, mode="a")
+    else:
+        path = c10.make_cooler(ctx, case)
+        clr = cooler.Cooler(path)
+    try:
         base_w, base_stats = call("balance_cooler(chunksize=None)", c10.run_balance, clr, o, chunksize=None)
         base_w = np.asarray(base_w, dtype=float)
         dw, cw = c10.known_modes(case)
@@ -180,6 +193,12 @@ def check_sched(case, ctx: Ctx):
         got = sorted((int(a), int(b), int(c)) for p in parts for a, b, c in zip(p["bin1_id"], p["bin2_id"], p["count"]))
         check(got == sorted(tuple(r) for r in case["rows"]),
               lambda: f"split(chunksize={case['chunksize']}) returned {len(got)} pixel records, stored {nnz} (each must be visited exactly once)")
+        # a split object is evaluated more than once: two pipes derived from it, and one pipe run twice
+        sp = split(cooler.Cooler(path), map=RecordingMap("lazy", 0), chunksize=case["chunksize"])
+        ident = (lambda chunk: len(chunk["pixels"]["bin1_id"]))
+        p1, p2 = sp.pipe(ident), sp.pipe(ident)
+        totals = [sum(p1.gather()), sum(p2.gather()), p1.reduce(lambda a, b: a + b, 0)]
+        check(totals == [nnz, nnz, nnz], lambda: f"repeated evaluation of split(chunksize={case['chunksize']}) visited {totals} pixel records, stored {nnz}")
     finally:
         if pool is not None:
             pool.terminate()
@@ -188,7 +207,8 @@ def check_sched(case, ctx: Ctx):
     nspans = max((len(p) for p in rec.passes), default=0)
     ctx.record(case, nspans >= 2 and rec.permuted, ["sched", "map=" + kind, "tie" if tie else "no-tie",
                                                     "spans>=2" if nspans >= 2 else "spans<2", "empty" if not nnz else "nonempty",
-                                                    "mode=" + ("cis" if o["cis_only"] else "trans" if o["trans_only"] else "genome")])
+                                                    "mode=" + ("cis" if o["cis_only"] else "trans" if o["trans_only"] else "genome"),
+                                                    "stale-object" if case.get("stale_object") else "fresh-object"])
 
 
 # ---------------------------------------------------------------------------
